@@ -6,9 +6,12 @@ use std::collections::BTreeMap;
 
 pub type OpKey = (u32, Vec<u32>, Vec<u32>);
 
-/// prefix of the panic message by which the engine recognises a callback called with arguments
-/// the library had no right to pass
-pub const CALLBACK_VIOLATION: &str = "callback-violation:";
+/// Prefix of a panic message by which the engine recognises a violation that can only be observed
+/// deep inside harness glue (a callback called with arguments the library had no right to pass, a
+/// checked constructor rejecting well-formed data): `library-violation:<sub_check>: <text>`.
+pub const LIB_VIOLATION: &str = "library-violation:";
+pub const CALLBACK_VIOLATION: &str = "library-violation:callback-arguments:";
+pub const CONSTRUCTOR_VIOLATION: &str = "library-violation:constructor-accepts-well-formed:";
 
 #[derive(Clone, Debug, Default)]
 pub struct TableFunctor {
